@@ -32,10 +32,13 @@ func c06Sig(sp *storeProbes, id string, topo, fuzzy, ev int) detection.Signature
 		IdentifyingFeatures: detection.IdentifyingFeatures{RequiredCalls: []string{"Dial"}}, NodeCount: 4, LoopDepth: 1}
 	s.TopologyHash = []string{sp.T1, sp.T2}[topo]
 	s.FuzzyHash = []string{sp.F1, sp.F2, ""}[fuzzy]
-	if ev == 0 {
+	switch ev {
+	case 0:
 		s.EntropyScore, s.EntropyTolerance = 4.99994, 0
-	} else {
+	case 1:
 		s.EntropyScore, s.EntropyTolerance = 4.99996, 0.5
+	default: // the score of ev=1 with a narrow tolerance: an update that changes the tolerance only
+		s.EntropyScore, s.EntropyTolerance = 4.99996, 0.05
 	}
 	return s
 }
@@ -51,6 +54,10 @@ func c06Ops(sp *storeProbes) []storeOp {
 				}
 			}
 		}
+	}
+	for _, id := range []string{"A", "B"} {
+		s := c06Sig(sp, id, 0, 0, 2)
+		ops = append(ops, storeOp{Kind: "add", Sigs: []detection.Signature{s}, Name: "Add(" + s.Name + ")"})
 	}
 	b := func(name string, sigs ...detection.Signature) {
 		ops = append(ops, storeOp{Kind: "batch", Sigs: sigs, Name: "AddBatch(" + name + ")"})
@@ -440,11 +447,13 @@ func TestVerifC06Seq(t *testing.T) {
 	a2 := c06Sig(sp, "A", 1, 1, 1)
 	a3 := c06Sig(sp, "A", 0, 0, 1) // only entropy/tolerance change
 	b1 := c06Sig(sp, "B", 0, 0, 0) // shares both hashes with A.v1
+	a4 := c06Sig(sp, "A", 0, 0, 2) // the score of A.v3 with a narrow tolerance
 	ops := []storeOp{
 		{Kind: "add", Sigs: []detection.Signature{a1}, Name: "Add(A.v1)"},
 		{Kind: "add", Sigs: []detection.Signature{a1b}, Name: "Add(A.v1-renamed)"},
 		{Kind: "add", Sigs: []detection.Signature{a2}, Name: "Add(A.v2)"},
 		{Kind: "add", Sigs: []detection.Signature{a3}, Name: "Add(A.v3-entropy-only)"},
+		{Kind: "add", Sigs: []detection.Signature{a4}, Name: "Add(A.v4-tolerance-only)"},
 		{Kind: "add", Sigs: []detection.Signature{b1}, Name: "Add(B.v1)"},
 		{Kind: "batch", Sigs: []detection.Signature{a2, a1}, Name: "AddBatch(A.v2,A.v1)"},
 		{Kind: "delete", ID: "A", Name: "Delete(A)"},
